@@ -271,9 +271,9 @@ def emit_struct(i, fields, mode, tuple_struct=False):
         wrap = "command"
         manual_tail = '.to_options().command(%s)' % rs_str(cmdname)
     elif mode == "command_named":
-        top_attr = ['command("renamed")', "short('r')"]
+        top_attr = ['command("renamed")', "short('r')", "short('m')", 'long("other-name")']
         wrap = "command"
-        manual_tail = '.to_options().command("renamed").short(\'r\')'
+        manual_tail = '.to_options().command("renamed").short(\'r\').short(\'m\').long("other-name")'
     elif mode == "options_version":
         top_attr = ["options", 'version("1.2.3")']
         wrap = "options"
@@ -386,7 +386,7 @@ def alphabet_for(fields, mode, i, cmdname=None):
     if mode in ("command", "command_doc3", "command_doc_indented"):
         a.append(cmdname or ("t%d" % i))
     if mode == "command_named":
-        a += ["renamed", "r"]
+        a += ["renamed", "r", "m", "other-name"]
     if mode == "options_cargo":
         a.append("pretty")
     seen = []
